@@ -278,6 +278,41 @@ pub struct TTVector {
 }
 
 impl TTVector {
+    /// Check that cores, shape and ranks describe a consistent tensor train
+    /// (needed before using a `TTVector` that was read from untrusted bytes).
+    ///
+    /// # Errors
+    /// Returns `InvalidShape` if any core does not match the shape or the rank chain.
+    pub fn validate(&self) -> Result<(), TTError> {
+        let bad = |m: &str| Err(TTError::InvalidShape(m.to_string()));
+        if self.cores.len() != self.shape.len() {
+            return bad("number of cores differs from number of modes");
+        }
+        if self
+            .shape
+            .iter()
+            .try_fold(1usize, |acc, &n| acc.checked_mul(n))
+            .is_none()
+        {
+            return bad("shape product overflows");
+        }
+        let mut left = 1usize;
+        for (core, &n) in self.cores.iter().zip(&self.shape) {
+            let (l, m, r) = core.shape;
+            if n == 0 || m != n || l != left || r == 0 {
+                return bad("core shape does not match mode size or rank chain");
+            }
+            if l.checked_mul(m).and_then(|x| x.checked_mul(r)) != Some(core.data.len()) {
+                return bad("core data length does not match core shape");
+            }
+            left = r;
+        }
+        if !self.cores.is_empty() && left != 1 {
+            return bad("last right rank must be 1");
+        }
+        Ok(())
+    }
+
     /// Total storage size in floats.
     #[must_use]
     pub fn storage_size(&self) -> usize {
